@@ -1,5 +1,6 @@
 import StamModel.Lemmas.Limit
 import StamModel.Lemmas.Handles
+import StamModel.Lemmas.QueryIter
 /-
   C08 — Query results equal the meaning of their constraints, however evaluated: the helper collections.
 
@@ -14,8 +15,17 @@ import StamModel.Lemmas.Handles
      this collection's order;
    * `union_fast_path_agrees` / `intersection_fast_path_agrees` — the offset bookkeeping of the sorted fast paths
      computes what the plain membership test computes.
-  PARTIAL: the evaluator itself (QueryIter: primary and secondary constraints for the six result types,
-  sub-queries, ADD/DELETE) is not modelled. That the result set is independent of the order of the constraints, that
+   * `subqueries_are_nested_iteration` — the nested-loop state machine of `QueryIter` (`next`, `init_all_states`,
+     `init_state`, `next_state`, `estimate_stacksize`; `StamModel/QueryIter.lean`) over a chain of sub-queries of any
+     depth, none of them OPTIONAL, yields exactly the rows of nested iteration, in that order, for every forest of
+     results;
+   * `optional_subquery_loses_rows` — with an OPTIONAL level the machine *as the code is* does not: after the first
+     outer row whose OPTIONAL sub-query comes up empty the remaining outer rows are lost (the state marked `done` is
+     dropped). The witness is replayed on the implementation by the `query` family (known finding); the pinned test
+     `query_subquery_optional_nonexistant` asserts the lossy count, so the one-line repair cannot be a fix commit;
+   * `optional_last_row_partial` — what does hold with OPTIONAL: when no outer row follows, the row is kept.
+  PARTIAL: the constraint evaluator (primary and secondary constraints for the six result types, ADD/DELETE) is not
+  modelled. That the result set is independent of the order of the constraints, that
   a conjunction is the intersection of its members' results, a disjunction their union, and LIMIT the slice, is
   checked on the implementation by the `query` family over stores from operation histories (differential: every
   constraint evaluated as primary vs. as filter) — a test, not a theorem.
@@ -50,7 +60,44 @@ theorem intersection_fast_path_agrees (a b : List Nat) (ha : StrictSorted a) (hb
 theorem built_collections_are_truthful (l : List Nat) (hl : l.Nodup) : Truthful (fromIter l) :=
   fromIter_truthful l hl
 
+/-! ## sub-queries -/
+open Stam.QI in
+/-- **C08 (sub-queries behave as nested iteration over the outer results).** `n` levels (the top-level query and
+`n - 1` nested sub-queries), none OPTIONAL; `roots` is the forest of results: the results of the top-level query, and
+under each result the results of the sub-query evaluated with that result bound. -/
+theorem subqueries_are_nested_iteration {α : Type} (n : Nat) (hn : 1 ≤ n) (roots : List (QI.Tree α)) :
+    QI.rows n (List.replicate n false) roots = QI.nested (List.replicate n false) roots := by
+  have hopt : NoOpt (List.replicate n false) := by
+    intro i
+    by_cases h : i < n <;> simp [h]
+  rw [rows_eq_below n hn _ hopt roots]
+  unfold nested
+  have : (List.replicate n false).tail = List.replicate (n - 1) false := by
+    cases n with
+    | zero => omega
+    | succ k => simp [List.replicate_succ]
+  rw [this, funext (rowsAt_replicate_false (n - 1))]
+
+open Stam.QI in
+/-- **C08, negative (the code as it is).** Two outer results; the OPTIONAL sub-query is empty for the first and has a
+result for the second: nested iteration gives `[[1], [2, 3]]`, the machine gives `[[1]]`. -/
+theorem optional_subquery_loses_rows :
+    QI.rows 2 [false, true] [Tree.node 1 [], Tree.node 2 [Tree.node 3 []]] = [[1]]
+    ∧ QI.nested [false, true] [Tree.node 1 [], Tree.node 2 [Tree.node 3 []]] = [[1], [2, 3]] := by
+  decide
+
+open Stam.QI in
+/-- **C08 (OPTIONAL), partial.** The case the pinned tests exercise: the outer row whose OPTIONAL sub-query is empty is
+the last one. -/
+theorem optional_last_row_partial :
+    QI.rows 2 [false, true] [Tree.node 2 [Tree.node 3 []], Tree.node 1 []]
+      = QI.nested [false, true] [Tree.node 2 [Tree.node 3 []], Tree.node 1 []] := by
+  decide
+
 /-! ## non-vacuity: the inputs on which the code failed before the repairs -/
+example : QI.rows 3 [false, false, false] [QI.Tree.node 1 [QI.Tree.node 2 [], QI.Tree.node 3 [QI.Tree.node 4 []]], QI.Tree.node 5 [QI.Tree.node 6 [QI.Tree.node 7 [], QI.Tree.node 8 []]]]
+    = [[1, 3, 4], [5, 6, 7], [5, 6, 8]] := by decide
+
 
 example : (union (fromIter [2]) (fromIter [1, 2, 7])).arr = [1, 2, 7] := by decide
 example : (union (fromIter [1, 9]) (fromIter [5, 7, 9])).arr = [1, 5, 7, 9] := by decide
